@@ -302,6 +302,9 @@ def dBCall (j : Json) : D B.Call := do
   | "do_nothing" => pure .doNothing
   | "do_update" => pure (.doUpdate (← dArg (fld j "field")) (← jOpt dArg (fld j "value")))
   | "using" => pure (.using (← dSrc (fld j "src")))
+  | "returning" => do
+    let xs ← (← fArr j "args").mapM fun a => do pure ((← dArg (fld a "a")), (← fBool a "agg"))
+    pure (.returning xs)
   | "top" => pure (.top (← jOpt (·.getInt?) (fld j "value")) (← fBool j "percent") (← fBool j "with_ties"))
   | "final" => pure .final
   | "sample" => pure (.sample (← fNat j "n") (← fOptNat j "offset"))
